@@ -48,17 +48,17 @@ type Schedule struct {
 
 // SiteStat counts how a site was reached in the current run.
 type SiteStat struct {
-	Visits   int
-	Visits2  int // visits with >= 2 keys
-	MaxKeys  int
+	Visits       int
+	Visits2      int // visits with >= 2 keys
+	MaxKeys      int
 	Uncontrolled bool
 }
 
 var (
-	sched    = Schedule{Default: Policy{Kind: Asc}}
-	visits   []int
-	stats    []SiteStat
-	digest   uint64
+	sched     = Schedule{Default: Policy{Kind: Asc}}
+	visits    []int
+	stats     []SiteStat
+	digest    uint64
 	decisions int
 	// Sites is filled by the generated file sites_gen.go: index = site id.
 	Sites []string
